@@ -209,7 +209,7 @@ Proof.
       * pose proof (Hs k cur nx Hk En) as L.
         destruct (IH (S k) nx En ltac:(lia)) as [f Hf].
         exists (S f). cbn [run_from]. rewrite Ew, En. cbn [gcons snd]. exact Hf.
-      * exists 1%nat. cbn [run_from]. rewrite Ew, En. cbn. congruence.
+      * exists 1%nat. cbn [run_from]. rewrite Ew, En. destruct (limit_exn ex); cbn; congruence.
     + exists 1%nat. cbn [run_from]. rewrite Ew. cbn. congruence.
 Qed.
 
